@@ -290,20 +290,23 @@ def problems(d, distinct=True):
 
 
 # ----------------------------------------------------------------------------- bounded-exhaustive enumeration
-# Token cost: 1 per block, 1 for the comma after an entry key, 1 per value piece, 1 per atom of inner text
-# (a nested group is 1 + its content), 1 per non-empty whitespace slot, 1 for a non-default spelling of the
-# type/keyword, 1 for a trailing comma.  Keys are assigned by position (k0,k1../s0,s1../t,u,v..) and are free.
+# Weighted token cost (COST): an entry block 1, a @string/@preamble/@comment block 2, a free-text comment 1 + its atoms,
+# the comma after an entry key 1, each value piece 1, a trailing comma 1, each atom of inner text 1 or 2 (see the
+# alphabets; a nested group is 1 + its content), each non-empty whitespace slot 2 (3 units, 2 for hs), a
+# non-default spelling of the type/keyword 2.  Keys are assigned by position (k0,k1../s0,s1../t,u,v..) and are free.
 
 E_WS = [" ", "\n", "\r\n"]
 E_HS = [" ", "\t"]
-E_ATOMS = ["a", ",", "=", "@", "#", "\n", "\\{", "\\}", "\\\""]
-E_FREE = ["x", "%", "{", "}", '"', ",", "=", "@"]
+E_ATOMS = {"v": {1: ["a", ","], 2: ["=", "@", "\n", "\\{", "\\}", "\\\""]},     # field / string values ('"' costs 1 where legal)
+           "b": {1: ["a"], 2: ["@", "\n", "\\}"]}}                                  # @preamble / @comment bodies
+E_FREE = {1: ["x", "{", "}"], 2: ["%", '"', ",", "=", "@"]}                 # free-text atoms by cost
 E_FKEYS = "tuvwxyz"
+COST = {"entry": 1, "string": 2, "preamble": 2, "ecomment": 2, "icomment": 1, "comma": 1, "tcomma": 1, "ws": 2, "var": 2}
 
 
 def _slot(alts):
     def f(n):
-        return [""] if n == 0 else (alts if n == 1 else [])
+        return [""] if n == 0 else (alts if n == COST["ws"] else [])
     return f
 
 
@@ -313,17 +316,17 @@ _hs = _slot(E_HS)
 
 def _opt(default, alts):
     def f(n):
-        return [default] if n == 0 else (alts if n == 1 else [])
+        return [default] if n == 0 else (alts if n == COST["var"] else [])
     return f
 
 
 _text_cache = {}
 
 
-def _texts(n, quote_ok, inner_quote_ok):
+def _texts(n, quote_ok, inner_quote_ok, alpha="v"):
     """All inner texts of exact cost n.  quote_ok: a bare '"' may occur at this level;
     inner_quote_ok: ... inside nested groups."""
-    key = (n, quote_ok, inner_quote_ok)
+    key = (n, quote_ok, inner_quote_ok, alpha)
     r = _text_cache.get(key)
     if r is not None:
         return r
@@ -331,14 +334,17 @@ def _texts(n, quote_ok, inner_quote_ok):
         r = [""]
     else:
         r = []
-        atoms = E_ATOMS + (['"'] if quote_ok else [])
-        rest = _texts(n - 1, quote_ok, inner_quote_ok)
-        for a in atoms:
-            for x in rest:
-                r.append(a + x)
+        for c, atoms in sorted(E_ATOMS[alpha].items()):
+            if c > n:
+                continue
+            atoms = atoms + (['"'] if quote_ok and c == 1 else [])
+            rest = _texts(n - c, quote_ok, inner_quote_ok, alpha)
+            for a in atoms:
+                for x in rest:
+                    r.append(a + x)
         for m in range(n):
-            for g in _texts(m, inner_quote_ok, inner_quote_ok):
-                for x in _texts(n - 1 - m, quote_ok, inner_quote_ok):
+            for g in _texts(m, inner_quote_ok, inner_quote_ok, alpha):
+                for x in _texts(n - 1 - m, quote_ok, inner_quote_ok, alpha):
                     r.append("{" + g + "}" + x)
     _text_cache[key] = r
     return r
@@ -419,7 +425,7 @@ def _fields(n, allow_f4, idx=0):
         return
     # this field is the last one: with or without trailing comma
     for vc in range(1, n + 1):
-        vals = list(_values(vc, allow_f4))
+        vals = _values(vc, allow_f4)
         if not vals:
             continue
         for e1, e2, wa in _prod(n - vc, [_ws, _ws, _ws]):
@@ -428,8 +434,8 @@ def _fields(n, allow_f4, idx=0):
                 if cws:
                     f["cws"] = cws
                 yield [f]
-        if n - vc >= 1:
-            for e1, e2, wa, wb in _prod(n - vc - 1, [_ws, _ws, _ws, _ws]):
+        if n - vc >= COST["tcomma"]:
+            for e1, e2, wa, wb in _prod(n - vc - COST["tcomma"], [_ws, _ws, _ws, _ws]):
                 for pieces, cws in vals:
                     f = _put({"key": E_FKEYS[idx], "pieces": pieces}, e1=e1, e2=e2, wa=wa, wb=wb)
                     if cws:
@@ -462,27 +468,27 @@ def _kw(word):
 
 def _blocks(n, i, allow_f4, prev_kind):
     """blocks of exact cost n at position i (n >= 1)"""
-    if n < 1:
-        return
-    m = n - 1
-    # entry without comma
-    for lead, typ, hs, w0, w1 in _prod(m, [_ws, _opt("a", ["Ab"]), _hs, _ws, _ws]):
-        yield _put({"t": "entry", "type": typ, "key": "k%d" % i, "comma": False}, lead=lead, hs=hs, w0=w0, w1=w1)
-    # entry with comma and fields
-    if m >= 1:
-        for fc in range(0, m):
+    m = n - COST["entry"]
+    if m >= 0:
+        # entry without comma
+        for lead, typ, hs, w0, w1 in _prod(m, [_ws, _opt("a", ["Ab"]), _hs, _ws, _ws]):
+            yield _put({"t": "entry", "type": typ, "key": "k%d" % i, "comma": False}, lead=lead, hs=hs, w0=w0, w1=w1)
+        # entry with comma and fields
+        m -= COST["comma"]
+        for fc in range(0, m + 1):
             flists = list(_fields(fc, allow_f4))
             if not flists:
                 continue
-            for lead, typ, hs, w0, w1, w2 in _prod(m - 1 - fc, [_ws, _opt("a", ["Ab"]), _hs, _ws, _ws, _ws]):
+            for lead, typ, hs, w0, w1, w2 in _prod(m - fc, [_ws, _opt("a", ["Ab"]), _hs, _ws, _ws, _ws]):
                 for fl in flists:
                     b = _put({"t": "entry", "type": typ, "key": "k%d" % i}, lead=lead, hs=hs, w0=w0, w1=w1, w2=w2)
                     if fl:
                         b["fields"] = fl
                     yield b
     # string
+    m = n - COST["string"]
     for vc in range(1, m + 1):
-        vals = list(_values(vc, allow_f4))
+        vals = _values(vc, allow_f4)
         for lead, kw, hs, w0, e1, e2, w3 in _prod(m - vc, [_ws, _kw("string"), _hs, _ws, _ws, _ws, _ws]):
             for pieces, cws in vals:
                 b = _put({"t": "string", "key": "s%d" % i, "pieces": pieces}, lead=lead, hs=hs, w0=w0, e1=e1, e2=e2, w3=w3)
@@ -493,16 +499,18 @@ def _blocks(n, i, allow_f4, prev_kind):
                 yield b
     # preamble / explicit comment
     for t, word in (("preamble", "preamble"), ("ecomment", "comment")):
+        m = n - COST[t]
         for tc in range(0, m + 1):
             for lead, kw, hs in _prod(m - tc, [_ws, _kw(word), _hs]):
-                for txt in _texts(tc, True, True):
+                for txt in _texts(tc, True, True, "b"):
                     b = _put({"t": t, "text": txt}, lead=lead, hs=hs)
                     if kw != word:
                         b["kw"] = kw
                     yield b
-    # free text: at least one atom, internal separators " " / "\n" cost 1 as well
+    # free text: at least one atom, an internal separator " " / "\n" costs 1
+    m = n - COST["icomment"]
     if prev_kind != "icomment" and m >= 1:
-        for lc in (0, 1):
+        for lc in (0, COST["ws"]):
             if m - lc < 1:
                 continue
             for lead in _ws(lc):
@@ -516,12 +524,14 @@ _free_cache = {}
 def _free(n):
     r = _free_cache.get(n)
     if r is None:
-        if n == 1:
-            r = list(E_FREE)
-        else:
-            r = [a + x for a in E_FREE for x in _free(n - 1)]
-            if n >= 3:
-                r += [a + sep + x for a in E_FREE for sep in (" ", "\n") for x in _free(n - 2)]
+        r = []
+        for c, atoms in sorted(E_FREE.items()):
+            if c == n:
+                r += atoms
+            elif c < n:
+                r += [a + x for a in atoms for x in _free(n - c)]
+                if n - c - 1 >= 1:
+                    r += [a + sep + x for a in atoms for sep in (" ", "\n") for x in _free(n - c - 1)]
         _free_cache[n] = r
     return r
 
@@ -551,7 +561,7 @@ def enumerate_small(budget, allow_f4=True):
     Derivations violating a side condition (e.g. '@' directly before a group) are filtered out by `problems`."""
     yield []
     for n in range(1, budget + 1):
-        for tr in (0, 1):
+        for tr in (0, COST['ws']):
             if n - tr < 1:
                 continue
             for trail in _ws(tr):
